@@ -136,6 +136,10 @@ FIXED = [
       {'op': 'rawcall', 'sa': ['ctor', 'Bits'], 'raw': [], 'rawkw': {'uint': ['f', 'inf'], 'length': ['i', 8]}}]),
     ('F-str-lsb0', 'C19', '99518bd', "in lsb0 mode str()/repr() of a 35-bit value showed the low bits as hex and the high bits as binary, so Bits(str(s)) != s",
      [setopt('lsb0', 1), M('a', 'BitStream', '11110000110010101011110000110010101', 'bin', 3), {'op': 'str_lex', 't': 'a'}, {'op': 'repr_eval', 't': 'a', 'rid': 'e'}]),
+    ('F-bitarray-little-endian', 'C08', 'a76046d', "Bits(bitarray('10000000', endian='little')) had bin '10000000' but tobytes() b'\\x01', hex '10', uint 1",
+     [M('a', 'Bits', '10000000', 'bitarray_le'), {'op': 'tobytes', 't': 'a', 'sa': ['tobytes']},
+      M('b', 'BitArray', '1000000011', 'bitarray_le_kw'), {'op': 'append', 't': 'b', 'xs': [L('1')]}, {'op': 'tobytes', 't': 'b', 'sa': ['tobytes']},
+      {'op': 'add', 't': 'a', 'xs': [L('0001', 'bitarray_le')]}]),
 ]
 
 KNOWN = [
